@@ -94,6 +94,7 @@ OMP_REGIONS = ["OMPParallel", "OMPDo", "OMPParallelDo", "OMPTeamsParDo", "OMPSin
 OMP_ALL = ["OMPTaskwait"] + OMP_REGIONS
 ACC_EXEC = ["ACCParallel", "ACCKernels", "ACCLoop"]
 ACC_REGIONS = ["ACCData"] + ACC_EXEC
+ACC_ALL = ["ACCEnterData"] + ACC_REGIONS
 
 
 def any_in(ks, l):
@@ -170,10 +171,12 @@ def cc_viol(r):
             out.append((6, k, None))
         if k in ("ACCData", "ACCEnterData") and any_in(ACC_COMPUTE, anc):
             out.append((7, k, nearest(ACC_COMPUTE, anc)))
-        if k in OMP_ALL and any_in(ACC_EXEC, anc):
-            out.append((8, k, nearest(ACC_EXEC, anc)))
-        if k in ACC_EXEC and any_in(OMP_REGIONS, anc):
+        if k in OMP_ALL and any_in(ACC_REGIONS, anc):
+            out.append((8, k, nearest(ACC_REGIONS, anc)))
+        if k in ACC_ALL and any_in(OMP_REGIONS, anc):
             out.append((8, k, no))
+        if k in OMP_ALL and "ACCRoutine" in rk:
+            out.append((8, k, "ACCRoutine"))
         if n[0] == "D":
             b = n[3]
             if k in ("OMPDo", "OMPParallelDo", "OMPTeamsParDo", "OMPLoop", "OMPTaskloop"):
@@ -217,8 +220,25 @@ def wf_keys(r):
     return sorted({"wf/%s/%s" % (WF_NAMES[c], full(k)) for c, k in wf_viol(r)})
 
 
+def cc_key(c, k, o):
+    """finding key of one compiler-rule violation.  Mixing OpenMP and OpenACC is one defect per
+    direction (nothing checks it), so the kinds involved are not part of that key."""
+    if c == 8:
+        if o == "ACCRoutine":
+            return "cc/omp-acc-mixed/OMP-in-ACC-routine"
+        return "cc/omp-acc-mixed/" + ("OMP-in-ACC" if k in OMP_ALL else "ACC-in-OMP")
+    return "cc/%s/%s%s" % (CC_NAMES[c], full(k), ("-in-" + full(o)) if o else "")
+
+
 def cc_keys(r):
-    return sorted({"cc/%s/%s%s" % (CC_NAMES[c], full(k), ("-in-" + full(o)) if o else "") for c, k, o in cc_viol(r)})
+    return sorted({cc_key(c, k, o) for c, k, o in cc_viol(r)})
+
+
+def acc_intervening(r):
+    """some `acc loop collapse(n)` sits on an imperfect nest: gfortran 12 accepts such nests and does not
+    scan the intervening code for further OpenACC restrictions, so no compiler verdict is predicted"""
+    return any(n[0] == "D" and kind(n) == "ACCLoop" and n[2] is not None and not perfect(n[2], n[3])
+               for _, n in rnodes(r))
 
 
 # ------------------------------------------------------------------ Coq terms
@@ -446,3 +466,43 @@ def gen_direct(rng, maxdepth=3):
     if rng.random() < 0.06:
         r = insert_sd(r, (), 0, "ACCRoutine")
     return tuple(r)
+
+
+# ------------------------------------------------------------------ finding keys as Coq expectations
+WF_COQ = ["WOrphan", "WNested", "WCollapse"]
+CC_COQ = ["CCWorkshare", "CCMaster", "CCInLoopRegion", "CCTeams", "CCLoopOrphan", "CCAccNested", "CCAccLoopOrphan",
+          "CCAccData", "CCMixed", "CCLoopAssoc", "CCCollapse", "CCBranch", "CCRoutinePos"]
+
+
+def coq_nkind(name):
+    """class name (as used in keys) -> Coq term of type nkind"""
+    if name in CLASS_DK:
+        return "(ND %s)" % CLASS_DK[name]
+    if name in CLASS_SK:
+        return "(NS %s)" % CLASS_SK[name]
+    return {"Return": "(NLeaf LReturn)", "CodeBlock": "(NLeaf LCodeBlock)", "Assign": "(NLeaf LAssign)",
+            "Loop": "NLoop", "If": "NIf", "Routine": "NRoutine"}[name]
+
+
+def coq_expect(key):
+    parts = key.split("/")
+    if parts[0] == "wf":
+        return "(EWF %s %s)" % (WF_COQ[WF_NAMES.index(parts[1])], coq_nkind(parts[2]))
+    if parts[0] == "cc":
+        rule = CC_COQ[CC_NAMES.index(parts[1])]
+        if parts[1] == "omp-acc-mixed":
+            return "(ECC %s None None)" % rule
+        if "-in-" in parts[2]:
+            inner, outer = parts[2].split("-in-")
+            return "(ECC %s (Some %s) (Some (Some %s)))" % (rule, coq_nkind(inner), coq_nkind(outer))
+        return "(ECC %s (Some %s) (Some None))" % (rule, coq_nkind(parts[2]))
+    raise ValueError("no Coq expectation for key " + key)
+
+
+def witness_ops(w):
+    """ops of a known_findings witness as python ops"""
+    out = []
+    for name, target, options in w["ops"]:
+        tg = tuple(tuple(x) if isinstance(x, list) else x for x in target)
+        out.append((name, tg, options))
+    return out
